@@ -830,6 +830,7 @@ package url
 //@   loop 1 step (prev(state) == StateAuthority && r != 0x40 && (prev(input.pointer) + 1 >= input.length || r == 0x2F || r == 0x3F || r == 0x23 || (special(url, url.scheme) && r == 0x5C))) ==> bufv(buffer) == ""   [C01,C05 authority-buffer]
 //@   loop 1 step ((prev(state) == StateHost || prev(state) == StateHostname) && !(stateOverridden && url.scheme == "file") && !((r == 0x3A && !prev(bracketFlag)) || (prev(input.pointer) + 1 >= input.length || r == 0x2F || r == 0x3F || r == 0x23 || (special(url, url.scheme) && r == 0x5C)))) ==> (bracketFlag == (r == 0x5B ? true : (r == 0x5D ? false : prev(bracketFlag))) && ((r != 0xFFFD || !p.opts.acceptInvalidCodepoints) ==> bufv(buffer) == prev(bufv(buffer)) + utf8(r)))   [C01,C05 host-state]
 //@   loop 1 step ((prev(state) == StateHost || prev(state) == StateHostname) && !stateOverridden && ((r == 0x3A && !prev(bracketFlag)) || (prev(input.pointer) + 1 >= input.length || r == 0x2F || r == 0x3F || r == 0x23 || (special(url, url.scheme) && r == 0x5C)))) ==> (url.host != nil && bufv(buffer) == "" && ((special(url, url.scheme) && p.opts.preParseHostFunc == nil && p.opts.postParseHostFunc == nil && !p.opts.laxHostParsing && prev(bufv(buffer)) != "" && prev(bufv(buffer))[0] != 0x5B && !specEndsInANumber(hostASCII(p, prev(bufv(buffer))))) ==> *url.host == hostASCII(p, prev(bufv(buffer)))))   [C01,C05 host-state]
+//@   loop 1 step ((prev(state) == StateHost || prev(state) == StateHostname || prev(state) == StateFileHost) && !special(url, url.scheme) && p.opts.preParseHostFunc == nil && prev(bufv(buffer)) != "" && prev(bufv(buffer))[0] != 0x5B) ==> (url.isIPv4 ==> prev(url.isIPv4))   [C01,C07 non-special-hosts-never-reinterpreted]
 //@   loop 1 step (prev(state) == StatePort && specIsDigit(r)) ==> (bufv(buffer) == prev(bufv(buffer)) + utf8(r) && url.port == prev(url.port))   [C01,C05 port-state]
 //@   loop 1 step (prev(state) == StatePort && !specIsDigit(r) && prev(bufv(buffer)) == "") ==> (url.port == prev(url.port) && url.decodedPort == prev(url.decodedPort))   [C01,C05 port-state]
 //@   loop 1 step (prev(state) == StatePort && !specIsDigit(r) && prev(bufv(buffer)) != "" && specAtoiOK(prev(bufv(buffer)))) ==> (specAtoiVal(prev(bufv(buffer))) <= 65535 && bufv(buffer) == "" && ((special(url, url.scheme) && defPort(url, url.scheme) == specItoa(specAtoiVal(prev(bufv(buffer))))) ? (url.port == nil && url.decodedPort == 0) : (url.port != nil && *url.port == specItoa(specAtoiVal(prev(bufv(buffer)))) && url.decodedPort == specAtoiVal(prev(bufv(buffer))))))   [C01,C05 port-state]
